@@ -27,7 +27,7 @@ from .. import bus, core, cover, emmon, gen, ref, sysgen, world
 LEVEL = 'exploration'
 JOBS = {'quick': 4, 'thorough': 16}
 REQUIRED_MONITORS = ('cli_vs_library_bytes', 'discovery_vs_truth', 'discovery_hash_seeds', 'real_cli_process')
-REQUIRED_CLASSES = ('mol:explicit-only', 'mol:explicit+auto', 'auto-only', 'exclude', 'output:given', 'output:default',
+REQUIRED_CLASSES = ('mol:explicit-only', 'mol:explicit+auto', 'auto-only', 'exclude', 'exclude:several', 'output:given', 'output:default',
                     'input:other-directory', 'distractor:absent-species-topology', 'distractor:foreign-coordinates',
                     'distractor:unknown-extension', 'distractor:system-file-in-list', 'distractor:previous-output',
                     'species-without-end-files', 'explicit-also-in-list', 'scale:non-default')
@@ -217,8 +217,12 @@ def run_world(ctx, case):
     rng = ctx.rng('world', i)
     root = os.path.join(_tmp['dir'], f'w{os.getpid()}_{i}')
     nsp = int(rng.integers(2, 5))
+    many = (i % 6 in (1, 2))            # four complete species: room for several exclusions
+    if many:
+        nsp = 4
     w = world.make_world(rng, root, nspecies=nsp, ninst=(2, 6), small_prob=0.2,
-                         end_for=None if i % 3 else ['SPA', 'SPB', 'SPC', 'SPD'][:nsp][:max(1, nsp - 1)])
+                         end_for=['SPA', 'SPB', 'SPC', 'SPD'] if many else
+                         (None if i % 3 else ['SPA', 'SPB', 'SPC', 'SPD'][:nsp][:max(1, nsp - 1)]))
     names = list(w['files'])
     complete = list(w['end_for'])
     no_end = [n for n in names if n not in complete]
@@ -245,7 +249,7 @@ def run_world(ctx, case):
     if mode == 'explicit-only':
         explicit = list(complete)
     elif mode == 'explicit+auto' and len(complete) >= 2:
-        k = int(rng.integers(1, len(complete)))
+        k = 1 if many else int(rng.integers(1, len(complete)))
         explicit = [complete[int(j)] for j in rng.choice(len(complete), k, replace=False)]
     else:
         explicit = []
@@ -264,9 +268,15 @@ def run_world(ctx, case):
         candidates = [candidates[int(j)] for j in rng.permutation(len(candidates))]
     auto_found = [n for n in complete if n not in explicit] if auto else []
     excluded = []
-    if auto and auto_found and len(auto_found) + len(explicit) >= 2 and rng.random() < 0.6:
-        excluded = [auto_found[int(rng.integers(0, len(auto_found)))]]
+    if auto and auto_found and len(auto_found) + len(explicit) >= 2 and (many or rng.random() < 0.6):
+        kmax = len(auto_found) if explicit else len(auto_found) - 1
+        k = int(rng.integers(1, kmax + 1))
+        if many and kmax >= 2:
+            k = int(rng.integers(2, kmax + 1))
+        excluded = [auto_found[int(j)] for j in rng.choice(len(auto_found), k, replace=False)]
         ctx.hit('exclude')
+        if k >= 2:
+            ctx.hit('exclude:several')
     scale = float(rng.choice([0.3, 0.5, 1.0]))
     out_mode = ['given', 'default'][int(rng.integers(0, 2))]
     other_dir = bool(rng.random() < 0.4)
